@@ -18,7 +18,9 @@ type c01ReadCase struct {
 }
 
 type c01WriteCase struct {
-	Doc srtDoc `json:"doc"`
+	// Foreign: the list carries metadata of other formats; the file-level helper is exercised as well
+	Foreign bool   `json:"foreign,omitempty"`
+	Doc     srtDoc `json:"doc"`
 }
 
 func init() {
@@ -39,11 +41,14 @@ func checkC01Read(c c01ReadCase) string {
 	if m := diffSRT(c.Doc, got); m != "" {
 		return fmt.Sprintf("%s\n--- document (%d bytes) ---\n%q", m, len(b), clip(string(b), 600))
 	}
-	return ""
+	return rereadStable("srt", b, readOpts{}, s)
 }
 
 func checkC01Write(c c01WriteCase) string {
 	s := toSubtitlesSRT(c.Doc)
+	if c.Foreign {
+		addForeignMetadata("srt", s)
+	}
 	var buf bytes.Buffer
 	err := s.WriteToSRT(&buf)
 	if len(c.Doc.Cues) == 0 {
@@ -75,6 +80,11 @@ func checkC01Write(c c01WriteCase) string {
 	}
 	if m := diffSRT(c.Doc, ind); m != "" {
 		return fmt.Sprintf("independent decoder: %s\n--- output ---\n%q", m, clip(string(out), 600))
+	}
+	if c.Foreign {
+		if m := fileWriteAgrees("srt", s); m != "" {
+			return m
+		}
 	}
 	return ""
 }
@@ -190,7 +200,7 @@ func TestC01(t *testing.T) {
 	})
 	rapidCheck(t, "C01/write", tier(2000, 200000), func(rt *rapid.T) {
 		o := srtTextOpts
-		c := c01WriteCase{Doc: genSRTDoc(rt, o)}
+		c := c01WriteCase{Doc: genSRTDoc(rt, o), Foreign: rapid.IntRange(0, 2).Draw(rt, "foreign") == 0}
 		decorateNBSP(rt, &c.Doc)
 		nt, ls := c01Labels(c.Doc, srtRendering{PadL: " ", PadR: " "}, 0)
 		ev.Case(nt, fmt.Sprintf("w%v", c.Doc), append(ls, "write")...)
